@@ -68,14 +68,32 @@ def run(ctx):
     if kw != list(keyword.kwlist):
         run.broken("K2 keyword list", f"model {kw} vs keyword.kwlist {keyword.kwlist}")
     if rs != list(utils.PYDANTIC_RESERVED_FIELD_NAMES):
-        run.broken("K2 reserved list", f"model {rs} vs utils.PYDANTIC_RESERVED_FIELD_NAMES {utils.PYDANTIC_RESERVED_FIELD_NAMES}")
+        import pydantic
+        real = sorted(n for n in dir(pydantic.BaseModel) if not n.startswith("_"))
+        found = False
+        for name in real:
+            for cand in (name, "".join(w.capitalize() if i else w for i, w in enumerate(name.split("_")))):
+                out = utils.process_name(cand, convert_to_snake_case=True, trim_leading_underscore=True,
+                                         handle_pydantic_resrved_field_names=True)
+                if out in real:
+                    run.violation(f"process_name({cand!r}) = {out!r} shadows the pydantic BaseModel attribute {out!r}",
+                                  {"name": cand, "output": out, "model_reserved": rs,
+                                   "impl_reserved": list(utils.PYDANTIC_RESERVED_FIELD_NAMES)})
+                    found = True
+                    break
+            if found:
+                break
+        if not found:
+            run.broken("K2 reserved list", f"model {rs} vs utils.PYDANTIC_RESERVED_FIELD_NAMES {utils.PYDANTIC_RESERVED_FIELD_NAMES}")
     # ---- K1 + property oracle ----
     exhaustive, extra = names_for(ctx)
     names = exhaustive + extra
     run.extra["names_exhaustive"] = len(exhaustive)
     run.extra["names_extra"] = len(extra)
     res = model.batch("C18", [[Sym("all"), n] for n in names])
-    reserved = set(utils.PYDANTIC_RESERVED_FIELD_NAMES)
+    import pydantic
+    # independent of the code under test: what a field name must not shadow
+    reserved = {n for n in dir(pydantic.BaseModel) if not n.startswith("_")}
     k1_bad = 0
     for n, r in zip(names, res):
         m_snake, m_pascal, m_gql, m_proc, m_guard = r
@@ -109,13 +127,13 @@ def run(ctx):
             if ip != n:
                 nontriv = True
             run.dist("flags", "".join("ft"[x] for x in fl))
-            if ip != mp:
-                k1_bad += 1
-                run.violation(f"K1 process_name disagrees on {n!r} flags {fl}: impl {ip!r} model {mp!r}",
-                              {"name": n, "flags": fl, "impl": ip, "model": mp}, found_input=False)
-                continue
-            # property oracle on the real output
+            # property oracle on the real output (evaluated whether or not the model agrees)
             problems = []
+            if ip != mp:
+                ip_again = utils.process_name(n, convert_to_snake_case=fl[0], trim_leading_underscore=fl[1],
+                                              handle_pydantic_resrved_field_names=fl[2])
+                if ip_again != ip:
+                    problems.append(f"not deterministic ({ip!r} then {ip_again!r})")
             if not ip.isidentifier():
                 problems.append("not an identifier")
             if keyword.iskeyword(ip):
@@ -129,6 +147,14 @@ def run(ctx):
                                          handle_pydantic_resrved_field_names=fl[2])
                 if ip2 != ip:
                     problems.append(f"not idempotent ({ip2!r})")
+            if ip != mp:
+                k1_bad += 1
+                if k1_bad <= 20 or problems:
+                    run.violation(f"K1 process_name disagrees on {n!r} flags {fl}: impl {ip!r} model {mp!r}"
+                                  + (f"; property fails on this input: {', '.join(problems)}" if problems else ""),
+                                  {"name": n, "flags": fl, "impl": ip, "model": mp, "problems": problems},
+                                  found_input=bool(problems))
+                continue
             if problems:
                 rep = {"name": n, "flags": {"snake": fl[0], "trim": fl[1], "reserved": fl[2]}, "output": ip,
                        "problems": problems}
